@@ -88,6 +88,14 @@ StepUnpruned ==
 EndBatch ==
     /\ stage = "batch" /\ ~S.out.crashed /\ pos = Len(S.names) + 1
     /\ fails' = fails \cup (IF k = Len(Entries) + 1 THEN {} ELSE {KTag \o "C12.BothEntries extra entries"})
+                     \* the same file through the command line (-f FILE -s): a failing game is an
+                     \* entry of the report, not the end of the run -- the entries of the other games
+                     \* are still produced and saved
+                     \cup (IF (\E i \in DOMAIN Entries : Entries[i].msg # "Game solved")
+                             /\ (S.cli.rc # 0 \/ S.cli.files # <<ReportName(S.file)>>)
+                          THEN {"C12.CliKeepsGoing a file with a failing game: exit " \o ToString(S.cli.rc)
+                                \o ", reports " \o ToString(Len(S.cli.files))}
+                          ELSE {})
     /\ stage' = "report" /\ UNCHANGED <<tid, pos, phase, hadSolution, k>>
 
 \* C16: the report file, the reader, the command line
